@@ -574,7 +574,7 @@ func (g *dbGen) program(mode string, nops int) []string {
 						opts["pk"] = core.Hex([]byte("pk"))
 						delete(opts, "exp")
 					}
-					k = []byte([]string{"p", "q", "p/q", "s"}[g.rng.Intn(4)])
+					k = []byte([]string{"p", "q", "p/q", "s", "a-b", "x-1-y"}[g.rng.Intn(6)])
 				}
 				toks = append(toks, g.putTok(k, opts))
 				versions = append(versions, nextVersion)
